@@ -13,6 +13,19 @@ ALLOWED_AXIOMS = {
 }
 
 PROPS = {
+    "C07": {
+        "n": {"quick": 2500, "thorough": 60000},
+        "shards": 16,
+        "trusted": [
+            "lexer and parser models as in C03 (tie: full AST and error positions of the damaged text)",
+            "the containment statement is evaluated on the real parser's output for (J, damaged J) pairs; it is not proved for all damages (ceiling: line-locality of the lexer + parser resynchronisation invariant)",
+        ],
+        "assumptions": [
+            "entries are separated by blank lines and the damaged text does not begin with an indented line unless the original did (such lines are continuation lines of the previous transaction by the format's own rule, DESIGN.md 5 C07 (ii))",
+            "others' content is compared as structure (positions forgotten) plus start line; balance / undeclared diagnostics of other entries are functions of that content (C02, C18)",
+        ],
+        "explanation": "recovery lemmas for all token lists; tie on damaged texts; oracle: every other transaction / directive / include keeps its content and its line (shifted), syntax errors only on the damaged entry's lines",
+    },
     "C03": {
         "n": {"quick": 1600, "thorough": 40000},
         "shards": 16,
